@@ -2,6 +2,7 @@ package rules
 
 import (
 	"fmt"
+	"go/constant"
 	"go/token"
 	"go/types"
 	"sort"
@@ -315,4 +316,143 @@ func errSideContradictions(c *Ctx) []errSideFinding {
 		}
 	}
 	return res
+}
+
+// goTarget is a function started asynchronously (go statement or time.AfterFunc) together with the
+// mapping of its free variables / parameters back to values of the function that starts it, so a
+// rule reads the same whether the body is a closure or a named method.
+type goTarget struct {
+	fn    *ssa.Function
+	site  ssa.Instruction
+	timer bool
+	bind  func(v ssa.Value) ssa.Value
+}
+
+func goTargets(fn *ssa.Function) []goTarget {
+	var res []goTarget
+	mk := func(site ssa.Instruction, callee ssa.Value, args []ssa.Value, timer bool) {
+		switch x := callee.(type) {
+		case *ssa.MakeClosure:
+			f := x.Fn.(*ssa.Function)
+			res = append(res, goTarget{fn: f, site: site, timer: timer, bind: func(v ssa.Value) ssa.Value {
+				for i, fv := range f.FreeVars {
+					if fv == v && i < len(x.Bindings) {
+						return x.Bindings[i]
+					}
+				}
+				return v
+			}})
+		case *ssa.Function:
+			res = append(res, goTarget{fn: x, site: site, timer: timer, bind: func(v ssa.Value) ssa.Value {
+				for i, p := range x.Params {
+					if p == v && i < len(args) {
+						return args[i]
+					}
+				}
+				return v
+			}})
+		}
+	}
+	for _, b := range fn.Blocks {
+		for _, ins := range b.Instrs {
+			switch x := ins.(type) {
+			case *ssa.Go:
+				mk(ins, x.Call.Value, x.Call.Args, false)
+			case *ssa.Call:
+				if f := x.Call.StaticCallee(); f != nil && f.String() == "time.AfterFunc" {
+					mk(ins, x.Call.Args[1], nil, true)
+				}
+			}
+		}
+	}
+	return res
+}
+
+// defSite is one definition a variable can take, with the block in which it is assigned.
+type defSite struct {
+	val ssa.Value
+	blk *ssa.BasicBlock
+}
+
+// defSites lists the definitions of a variable-like value: phi edges, or the stores to the cell
+// of a local that is captured by reference / address-taken.
+func defSites(v ssa.Value, seen map[ssa.Value]bool) []defSite {
+	v = stripConv(v)
+	if seen[v] {
+		return nil
+	}
+	seen[v] = true
+	switch x := v.(type) {
+	case *ssa.Phi:
+		var res []defSite
+		for i, e := range x.Edges {
+			if _, isPhi := stripConv(e).(*ssa.Phi); isPhi {
+				res = append(res, defSites(e, seen)...)
+				continue
+			}
+			res = append(res, defSite{e, x.Block().Preds[i]})
+		}
+		return res
+	case *ssa.UnOp:
+		if al, ok := x.X.(*ssa.Alloc); ok && x.Op == token.MUL {
+			return cellDefs(al, seen)
+		}
+	case *ssa.Alloc:
+		return cellDefs(x, seen)
+	}
+	if ins, ok := v.(ssa.Instruction); ok {
+		return []defSite{{v, ins.Block()}}
+	}
+	return []defSite{{v, nil}}
+}
+
+func cellDefs(al *ssa.Alloc, seen map[ssa.Value]bool) []defSite {
+	var res []defSite
+	for _, ref := range *al.Referrers() {
+		if st, ok := ref.(*ssa.Store); ok && st.Addr == al {
+			if _, isPhi := stripConv(st.Val).(*ssa.Phi); isPhi {
+				res = append(res, defSites(st.Val, seen)...)
+				continue
+			}
+			res = append(res, defSite{st.Val, st.Block()})
+		}
+	}
+	return res
+}
+
+// outerDefs resolves a value used inside an asynchronously started function to its definitions:
+// loads of by-reference captured variables and parameters are followed into the starting function.
+func (t goTarget) outerDefs(v ssa.Value) []defSite {
+	v = stripConv(v)
+	switch x := v.(type) {
+	case *ssa.UnOp:
+		if fv, ok := x.X.(*ssa.FreeVar); ok && x.Op == token.MUL {
+			return defSites(t.bind(fv), map[ssa.Value]bool{})
+		}
+	case *ssa.Parameter:
+		return defSites(t.bind(x), map[ssa.Value]bool{})
+	case *ssa.FreeVar:
+		return defSites(t.bind(x), map[ssa.Value]bool{})
+	}
+	return defSites(v, map[ssa.Value]bool{})
+}
+
+// guardedByKeyword: block b is reached only through the true edge of a comparison of some string
+// with the constant kw (the arm of a command/option switch).
+func guardedByKeyword(b *ssa.BasicBlock, kw string) bool {
+	if b == nil {
+		return false
+	}
+	for _, ge := range edgeGuards(b) {
+		bo, ok := ge.cond.(*ssa.BinOp)
+		if !ok || bo.Op != token.EQL || !ge.pol {
+			continue
+		}
+		for _, side := range []ssa.Value{bo.X, bo.Y} {
+			if cst, ok := side.(*ssa.Const); ok && cst.Value != nil && cst.Value.Kind() == constant.String && constant.StringVal(cst.Value) == kw {
+				return true
+			}
+		}
+	}
+	return false
 }
